@@ -6,13 +6,22 @@ use beve::from_slice as beve_from_slice;
 use serde::Serialize;
 use serde::de::DeserializeOwned;
 use serde_json::Value;
+#[cfg(repe_verif)]
+use crate::verif_seam::collections::HashMap;
+#[cfg(repe_verif)]
+use crate::verif_seam::tokio_net::tcp::{OwnedReadHalf, OwnedWriteHalf};
+#[cfg(repe_verif)]
+use crate::verif_seam::tokio_net::{TcpStream, ToSocketAddrs};
+#[cfg(not(repe_verif))]
 use std::collections::HashMap;
 use std::io::ErrorKind;
 use std::sync::atomic::{AtomicU64, Ordering};
 use std::sync::{Arc, Mutex as StdMutex};
 use tokio::io::AsyncWriteExt;
 use tokio::io::{BufReader, BufWriter};
+#[cfg(not(repe_verif))]
 use tokio::net::tcp::{OwnedReadHalf, OwnedWriteHalf};
+#[cfg(not(repe_verif))]
 use tokio::net::{TcpStream, ToSocketAddrs};
 use tokio::sync::{Mutex, oneshot};
 use tokio::task::JoinError;
@@ -97,6 +106,12 @@ impl Drop for PendingRequestGuard {
 }
 
 impl AsyncClient {
+    /// Verification probe: number of calls currently registered as awaiting a response.
+    #[cfg(repe_verif)]
+    pub fn verif_pending_len(&self) -> usize {
+        lock_pending_map(&self.inner.pending).len()
+    }
+
     pub async fn connect<A: ToSocketAddrs>(addr: A) -> std::io::Result<Self> {
         let stream = TcpStream::connect(addr).await?;
         stream.set_nodelay(true)?;
